@@ -1046,8 +1046,94 @@ class PteraTransformer(NodeTransformer):
                     orig=node,
                 ),
             ]
+        elif (
+            isinstance(node.target, (ast.Attribute, ast.Subscript))
+            and isinstance(node.target.value, ast.Name)
+            and not isinstance(getattr(node.target, "slice", None), ast.Slice)
+        ):
+            return self._visit_AugAssign_member(node)
         else:
             return self.generic_visit(node)
+
+    def _visit_AugAssign_member(self, node):
+        """Rewrite an augmented assignment to an attribute or an item.
+
+        Before:
+            obj.attr += value
+
+        After:
+            _tmp_obj = obj
+            _tmp = _tmp_obj.attr
+            _tmp += value
+            _tmp_obj.attr = _ptera_interact('obj', Key('attr', 'attr'), None, _tmp)
+        """
+        target = node.target
+        varname = target.value.id
+        if isinstance(target, ast.Attribute):
+            alias = f"{varname}.{target.attr}"
+        else:
+            alias = None
+        if not self.should_instrument(varname, None) and not (
+            alias and self.should_instrument(alias, None)
+        ):
+            return self.generic_visit(node)
+
+        def _set(sym, value):
+            return ast.copy_location(
+                ast.Assign(
+                    targets=[ast.Name(id=sym, ctx=ast.Store())], value=value
+                ),
+                node,
+            )
+
+        def _load(sym):
+            return ast.Name(id=sym, ctx=ast.Load())
+
+        obj_sym, tmp_sym = _gensym(), _gensym()
+        syms = [obj_sym, tmp_sym]
+        stmts = [_set(obj_sym, ast.Name(id=varname, ctx=ast.Load()))]
+        if isinstance(target, ast.Attribute):
+            key = self._wrap_call("__ptera_Key", "attr", target.attr)
+            place = dict(value=_load(obj_sym), attr=target.attr)
+        else:
+            slc = target.slice
+            slc = slc.value if isinstance(slc, ast.Index) else slc
+            if isinstance(slc, ast.Constant):
+                index = slc
+            else:
+                # The index is evaluated once, before the value
+                index_sym = _gensym()
+                syms.append(index_sym)
+                stmts.append(_set(index_sym, self.visit(slc)))
+                index = _load(index_sym)
+            key = self._wrap_call("__ptera_Key", "index", deepcopy(index))
+            place = dict(value=_load(obj_sym), slice=index)
+
+        cls = type(target)
+        stmts.append(_set(tmp_sym, cls(**place, ctx=ast.Load())))
+        stmts.append(
+            ast.copy_location(
+                ast.AugAssign(
+                    target=ast.Name(id=tmp_sym, ctx=ast.Store()),
+                    op=node.op,
+                    value=self.visit(node.value),
+                ),
+                node,
+            )
+        )
+        stmts.append(
+            ast.copy_location(
+                ast.Assign(
+                    targets=[cls(**deepcopy(place), ctx=ast.Store())],
+                    value=self._interact(
+                        varname, key, None, _load(tmp_sym), True, alias=alias
+                    ),
+                ),
+                node,
+            )
+        )
+        stmts.append(_forget(node, *syms))
+        return stmts
 
     def visit_Import(self, node):
         """Rewrite an import statement.
